@@ -5,7 +5,7 @@ V = Path(__file__).resolve().parents[2]
 
 
 def verdict_of(m):
-    first = m.get("round2_first_contact") or m.get("round3_first_contact")
+    first = m.get("round2_first_contact") or m.get("round3_first_contact") or m.get("round4_first_contact")
     v = m.get("verdict") or m.get("expected") or ""
     if first:
         v = (v + "; " if v else "") + f"first contact: {first}"
